@@ -453,8 +453,8 @@ fn main() {
         run.infra_errors.push(format!("expected 5 feature builds, got {}", build_rows.len()));
     }
     let (n, shards) = match tier {
-        Tier::Quick => (8_000u32, 16usize),
-        Tier::Thorough => (400_000, 64),
+        Tier::Quick => (40_000u32, 32usize),
+        Tier::Thorough => (3_000_000, 256),
     };
     let sd = run.seed_for("state", 0);
     run.par(shards, |s, obs| {
